@@ -1,2 +1,6 @@
-import Tumfl.Props.C11
-#print axioms Tumfl.Props.C11_roundtrip
+import Tumfl.Props.C04
+#print axioms Tumfl.Props.C04_lookup
+#print axioms Tumfl.Props.C04_lookup_none
+#print axioms Tumfl.Props.C04_no_require
+#print axioms Tumfl.Props.C12_untouched
+#print axioms Tumfl.Props.C12_errors
